@@ -21,4 +21,22 @@ CHECKS = {
         text="All interleavings of stop vs. both servers' start-up steps and 1..2 in-flight requests are model-checked (ListenerReleased, RebindOk, Drain, Terminates). Behaviours of ServerGen.tla (run-to-gate semantics) drive the real code with every verif hook as a gate: settled goroutine positions, responses, AwaitStop return and re-bind of both addresses are compared with the spec at every decision. The ListenAndServe/Shutdown race that no hook can gate is exercised by aligned start/stop cycles on the same addresses.",
         note="Trusted: the transcription of net/http's ListenAndServe/Shutdown steps; schedules inside net/http are sampled by stress, not enumerated. SIGINT delivery before signal.Notify is outside the property.",
     ),
+    "C04": dict(
+        level="model_checking",
+        technique="executable TLA+ Keccak-f[1600]/sponge specification (Keccak.tla, constants derived from FIPS 202, KAT-pinned) run as a sponge machine by TLC for every (length, content, domain) of the tier; each behaviour's digest replayed into the Go gadget (test engine + compiled R1CS)",
+        text="KeccakMC.tla pads with the implementation-shaped arithmetic and TLC checks that it equals pad10*1 for every byte length over three rate blocks (mutant with an extra block at 135 mod 136 refuted). Every behaviour (message, digest) is replayed into NewKeccak256/NewSHA3_256: the gadget output must be the spec digest and a one-bit-different digest must be unsatisfiable.",
+        note="Trusted: gnark test engine/R1CS solver. The spec digest is additionally cross-checked against golang.org/x/crypto/sha3 on every case (spec bug = exit 2). Contents are classes (zero, ones, single bits, boundary bits, pseudo-random), not all 2^n messages.",
+    ),
+    "C06": dict(
+        level="model_checking",
+        technique="TLA+ ScanBit state machine (ReducedCheck.tla) = the loop of ReducedModRCheck; TLC covers ALL digit vectors for BN254/256 by state merging and every vector for tiny primes; per-path-class and per-vector replay into the Go gadgets incl. R1CS with the bits.NBits hint replaced",
+        text="Model level: exhaustive for the production parameters (all boolean and non-boolean digit vectors of length 256 against the BN254 modulus; invariant: accepted iff boolean and below the modulus; three mutants refuted) and for all vectors over small primes with the ghost comparison tied to integer values, big-endian emission and recomposition. Code level: one vector per path class of the BN254 scan graph and every vector over tiny fields are replayed into ReducedModRCheck, ToReducedBigEndian and FromBinaryBigEndian (test engine; compiled R1CS over 47 and BN254 with prover-chosen digits).",
+        note="Trusted: gnark's ToBinary semantics (hint + booleanity + recomposition), observed through the engine and the solver with a replaced hint. At BN254 the code is exercised per path class (1529 vectors), not on all 2^256.",
+    ),
+    "C08": dict(
+        level="model_checking",
+        technique="TLA+ specification of the on-chain packing and of the circuit's bit path (Packing.tla) with the executable Keccak.tla as oracle; TLC-chosen value-class vectors replayed into ComputeInputHash*, and documents produced by the code (gen-test-params CLI sweep, random valid batches with short roots) validated against the spec and against the real circuit",
+        text="PackingAgrees/HashAgrees: the bit string the circuit hashes is abi.encodePacked of the fields and the recomposed digest is keccak mod r, for every class vector TLC enumerates. Leg A: helpers must return the spec hash for every byte-length class of roots/commitments, index class and batch size (one- and two-block inputs). Leg B: every document the code produces must carry the spec's hash and be accepted by the real circuit.",
+        note="Trusted: Keccak.tla (KATs + per-case cross-check with x/crypto); gnark test engine for circuit acceptance. Value classes, not all field elements.",
+    ),
 }
